@@ -108,9 +108,19 @@ def run_case(case):
         return ("fail", dict(clause="the operation is defined", failure="unexpected_exception", tags=tags,
                              expected="a result", observed=f"{type(e).__name__}: {e}"))
     oa = None if abse is None else np.asarray(abse, dtype=float)
+    # does the observed uncertainty equal what the transcribed formulas of the code predict?  (a failure that the
+    # transcription does not predict is a DIFFERENT defect than the recorded ones)
+    as_tr = all(r.get("machknown") for r in recs)
+    if as_tr:
+        if any(r["mach"] == [] for r in recs):
+            as_tr = oa is None and all(r["mach"] == [] for r in recs)
+        else:
+            mm = np.array([_f(r["mach"]) for r in recs], dtype=float)
+            as_tr = oa is not None and T.close(oa, mm if len(recs) > 1 else mm[0], rel=1e-9)
+    suffix = ":as_transcribed" if as_tr else ""
     # always: non-negative
     if oa is not None and np.any(oa < 0):
-        return ("fail", dict(clause="the absolute uncertainty of a result is never negative", failure="negative_error", tags=tags,
+        return ("fail", dict(clause="the absolute uncertainty of a result is never negative", failure="negative_error" + suffix, tags=tags,
                              expected=">= 0", observed=oa.tolist()))
     for k, ob in enumerate(r0["obs"]):
         want = np.array([T.ev(r["obs"][k]["t"]) for r in recs], dtype=float)
@@ -134,7 +144,7 @@ def run_case(case):
                 cl = ("sum/difference carries the sum of the uncertainties; an exact factor scales by its absolute value; "
                       "a linear conversion scales the uncertainty like the value") if ob["lhs"] == "abse" else \
                     "a linear conversion leaves the relative uncertainty unchanged"
-                return ("fail", dict(clause=cl, failure="wrong_error" if ob["lhs"] == "abse" else "wrong_relative_error", tags=tags,
+                return ("fail", dict(clause=cl, failure=("wrong_error" if ob["lhs"] == "abse" else "wrong_relative_error") + suffix, tags=tags,
                                      expected=np.asarray(want).tolist(), observed=got.tolist()))
         elif ob["rel"] == "ge":
             if np.any(got < want * (1 - 1e-9) - 1e-300):
